@@ -128,12 +128,13 @@ PROPS["C10"] = {
 # Go functions translated on this run (coq/Gen/Src*.v, by tools/globalsgen srcgen.go) equal the model's functions
 SOURCE_TIE = {
     "C01": ("C01_source", "jwt.Decode with loadClaims and parseHeaders (accepts exactly what the model's decode accepts, same kind and issuer), ClaimsData.verify, identifier.Version"),
-    "C02": ("C02_source", "the six typed decoders (each against the model's decode_typed), identifier.Kind"),
-    "C05": ("C05_source", "Header.Valid, parseHeaders, loadClaims"),
+    "C02": (["C02_source", "C02_source_encode"], "the six typed decoders (each against the model's decode_typed), identifier.Kind; on the Encode side ClaimsData.doEncode's role rule and every kind's Encode (refusing whenever the model's encode_gate refuses)"),
+    "C05": (["C05_source", "C05_source_encode"], "Header.Valid, parseHeaders, loadClaims; on the Encode side ClaimsData.doEncode (version-2 algorithm only, three segments, signature over header-dot-claims)"),
     "C06": ("C06_source", "Subject.countTokenWildcards, Subject.Validate, ServiceLatency.Validate, Export.Validate (with the Export kind / response-type predicates)"),
     "C07": ("C07_source", "ClaimsData.Validate (v2 and v1compat), the time checks every kind delegates to"),
     "C08": ("C08_source", "OperatorClaims.DidSign and AccountClaims.DidSign"),
     "C09": ("C09_source", "RevocationList.Revoke / ClearRevocation / IsRevoked / allRevoked / MaybeCompact (v2 and v1compat), AccountClaims.IsClaimRevoked / isRevoked, Export.IsClaimRevoked / isRevoked"),
+    "C12": ("C12_source", "ClaimsData.doEncode (what a successful Encode did, in order, with an effect log; completeness; the empty token on failure), ClaimsData.encode and the Encode of all seven kinds, each proved to return what the model's encode returns under the full gate, with the same claims object afterwards"),
     "C10": ("C10_source", "Subject.IsContainedIn / HasWildCards (v2 and v1compat)"),
     "C16": ("C16_source", "Subject.IsContainedIn / HasWildCards (v2 and v1compat)"),
     "C18": ("C18_source", "cleanSubject (v2 and v1compat)"),
@@ -141,7 +142,9 @@ SOURCE_TIE = {
     "C20": ("C20_source", "TagList / StringList Contains, Add, Remove"),
 }
 for _pid, (_pf, _fns) in SOURCE_TIE.items():
-    PROPS[_pid]["extra_property_files"] = list(PROPS[_pid].get("extra_property_files", [])) + [_pf]
+    _pfl = _pf if isinstance(_pf, list) else [_pf]
+    PROPS[_pid]["extra_property_files"] = list(PROPS[_pid].get("extra_property_files", [])) + _pfl
+    _pf = ".v, Properties/".join(_pfl)
     PROPS[_pid]["level_text"] += (" SOURCE TIE (Properties/%s.v): %s is TRANSLATED from the Go source of the working tree on every run "
         "(go/ast + go/types -> Gallina, coq/Gen/Src*.v) and proved equal, for all arguments, to the model function the theorems above are about; "
         "a change to that function changes the translation and the equality must be re-proved." % (_pf, _fns))
